@@ -453,21 +453,24 @@ def options_shared(s: int, o1: int, o2: int, how: int) -> bool:
 
 def conditions(tier, seed):
     out = []
-    step = 3 if tier == 'quick' else 2
-    t = 300 if tier == 'quick' else 1200
+    step = 2
+    t = 400 if tier == 'quick' else 1200
     for lo in range(0, NP, step):
         out.append({'name': 'guarantee[stmts=%d-%d]' % (lo, min(NP, lo + step) - 1), 'func': 'guarantee', 'timeout': t,
+                    # one path = one evaluation with a heap fingerprint at each of its 20-40 dispatch points (8-25 s):
+                    # CrossHair's default per-path budget (about the square root of the condition budget) is too small
+                    'per_path_timeout': 120,
                     'param': {'slo': lo, 'shi': lo + step},
                     'bounds': 'statements %s; document {a: symbolic int, b: [2, a, 3], s: ab, l: [{x: a, y: ab}, {x: 1, y: q}]}; '
                               ' fingerprint of statements+engine+shared context+yaql modules at every runner.call' % (
                                   POOL_SRC[lo:lo + step],)})
     for lo in range(0, NP, 10):
-      out.append({'name': 'guarantee_eval[stmts=%d-%d]' % (lo, min(NP, lo + 10) - 1), 'func': 'guarantee_eval', 'timeout': 2 * t,
+      out.append({'name': 'guarantee_eval[stmts=%d-%d]' % (lo, min(NP, lo + 10) - 1), 'func': 'guarantee_eval', 'timeout': 2 * t, 'per_path_timeout': 120,
                 'param': {'slo': lo, 'shi': lo + 10},
                 'bounds': 'yaql.eval of 10 pool statements after the text was cached once: fingerprint of the '
                           'yaql module caches/engine/default context at every runner.call (selectors; concrete documents)'})
     for lo in (0, 20):
-        out.append({'name': 'guarantee_bare[stmts=%d-%d]' % (lo, lo + 3), 'func': 'guarantee', 'timeout': t,
+        out.append({'name': 'guarantee_bare[stmts=%d-%d]' % (lo, lo + 3), 'func': 'guarantee', 'timeout': t, 'per_path_timeout': 120,
                     'param': {'slo': lo, 'shi': lo + 4, 'bare': True},
                     'bounds': 'as guarantee, in children of a shared context chain that has no #finalize function (hand-assembled '
                               'host context)'})
